@@ -197,7 +197,8 @@ def run(ctx):
         specs.append({
             "module": "checks.c02", "params": params, "bound": bound,
             "opts": {"spin_time": 0.05 if spinning else 0.0, "time_horizon": 40.0,
-                     "drain": 4.0, "max_points": 8000, "free_switch_cost": 1},
+                     "drain": 4.0, "max_points": 8000, "free_switch_cost": 1,
+                     "time_jump_cost": None if ctx.quick else 1},
             "budget": 3000 if ctx.quick else 40000,
         })
     if not ctx.quick:
